@@ -265,6 +265,8 @@ def _scenario_child(scn, forced=None, est_steps=20000):
         return {"results": results, "failure": failure, "hazards": list(shim.HAZARDS)[:5], "open_conns": open_conns,
                 "schedule": s.schedule(), "switch_where": [w for (_s, _f, _t, w, _o) in s.switches][:200], "steps": s.steps,
                 "thread_steps": {n: t["steps"] for n, t in s.threads.items()},
+                "thread_lines": {n: t["lines"] for n, t in s.threads.items()},
+                "hot_lines": {n: list(t["hot_lines"]) for n, t in s.threads.items()},
                 "shared_events": s.shared_events, "switches_at_shared_state": sw_shared, "interleaving": idg, "shared_digest": sdg,
                 "lock_acquisitions": sum(l.acquisitions for l in sims), "lock_contended": sum(l.contended for l in sims),
                 "lock_kinds": sorted("%s:%s" % (l.name, "RLock" if l.reentrant else "Lock") for l in sims),
@@ -357,6 +359,62 @@ def task_scenarios(task):
     return out
 
 
+def sweep_pairs():
+    """Ordered pairs of calls that contend for the same piece of process state (same family)."""
+    fc = fixed_calls()
+    fams = {}
+    for name, op in fc:
+        if name.startswith("opcls-"):
+            key = "opcls-" + name.split("-")[1]
+        elif name.startswith(("viral", "tp-", "tpcast-", "parse-", "pretty", "sem-", "virt-")):
+            key = name.split("-")[0].rstrip("0123456789")
+        else:
+            continue
+        fams.setdefault(key, []).append((name, op))
+    pairs = []
+    for key in sorted(fams):
+        members = fams[key]
+        for (na, a) in members:
+            for (nb, b) in members:
+                if na != nb:
+                    pairs.append((key, na, a, nb, b))
+    return pairs
+
+
+def task_sweep(task):
+    """Atomicity sweep for one ordered pair (A, B): B as a whole is inserted into A at every 'hot' line event of A
+    (within sched.HOT_SPAN line events after A touched process-global state) and at a sample of the others; one
+    pre-emption per run, so every run is one point of a finite, stated space."""
+    fam, na, a, nb, b = task["pair"]
+    _alone_cache.update(task.get("alone") or {})
+    dry = {"threads": [[{"name": na, "op": a}]], "strategy": {"kind": "phase", "p": 0.0}, "sched_seed": 0}
+    _preparse({"threads": [[{"name": na, "op": a}], [{"name": nb, "op": b}]]})
+    alone(a)
+    alone(b)
+    d = proc.in_child(_scenario_child, dry, timeout=300)
+    total = d["thread_lines"].get("T0", 0)
+    hot = sorted(set(d["hot_lines"].get("T0", [])))
+    rng = random.Random(task["seed"])
+    cap = task["max_points"]
+    hot_sel = hot if len(hot) <= int(cap * 0.8) else sorted(rng.sample(hot, int(cap * 0.8)))
+    cold_pool = [k for k in range(1, total + 1) if k not in set(hot)]
+    cold_sel = sorted(rng.sample(cold_pool, min(len(cold_pool), cap - len(hot_sel))))
+    out = {"family": fam, "pair": [na, nb], "lines": total, "hot": len(hot), "points": 0, "hot_points": 0, "complete_hot": len(hot_sel) == len(hot), "viols": []}
+    for k in hot_sel + cold_sel:
+        scn = {"threads": [[{"name": na, "op": a}], [{"name": nb, "op": b}]], "strategy": {"kind": "insert", "thread": "T0", "at_line": k}, "sched_seed": k}
+        child = proc.in_child(_scenario_child, scn, timeout=300)
+        out["points"] += 1
+        out["hot_points"] += int(k in set(hot))
+        viols = judge(scn, child)
+        if viols:
+            inv, obs, sig = viols[0]
+            out["viols"].append({"invariant": inv, "observed": obs + " [single insertion of %s at line event %d of %s]" % (nb, k, na),
+                                 "signature": dict(sig, invariant=inv, sweep=fam), "scenario": scn, "schedule": child["schedule"],
+                                 "digest": child["seam_digest"], "steps": child["steps"]})
+            break
+    return out
+
+
 def task_minimise(task):
     """Re-search minimisation: fewer threads / calls, then the schedule with the fewest switches
     (PCT depth 1 first) that still violates the same invariant."""
@@ -436,8 +494,35 @@ def run(ctx):
         keys = {_op_key(c["op"]) for _sd, scn in part for cl in scn["threads"] for c in cl}
         tasks.append({"scenarios": part, "alone": {k: alone_map[k] for k in keys if k in alone_map}})
     done = ctx.map("task_scenarios", tasks, budget_s=ctx.budget_s * 0.8, min_tasks=24)
+    # phase 3: atomicity sweep over contending pairs
+    pairs = sweep_pairs()
+    rng.shuffle(pairs)
+    if quick:
+        seen_f, chosen = set(), []
+        for pr in pairs:                       # one ordered pair per family
+            if pr[0] not in seen_f:
+                seen_f.add(pr[0])
+                chosen.append(pr)
+    else:
+        chosen = pairs
+    sweep_tasks = []
+    for pr in chosen:
+        keys = {_op_key(pr[2]), _op_key(pr[4])}
+        sweep_tasks.append({"pair": pr, "seed": ctx.seed, "max_points": 100 if quick else 400, "alone": {k: alone_map[k] for k in keys if k in alone_map}})
+    sweep_done = ctx.map("task_sweep", sweep_tasks, budget_s=ctx.budget_s * 0.5, force=True, min_tasks=12)
     violations, inter, samples = [], set(), []
     n_eval = steps = switches = contended = shared = open_after = 0
+    sweep_points = sweep_hot = sweep_complete = 0
+    sweep_table = []
+    for _t, r in sweep_done:
+        sweep_points += r["points"]
+        sweep_hot += r["hot_points"]
+        sweep_complete += int(r["complete_hot"] and not r["viols"])
+        sweep_table.append({k: r[k] for k in ("family", "pair", "lines", "hot", "points", "hot_points", "complete_hot")})
+        violations += r["viols"]
+        n_eval += r["points"]
+        for k in range(r["points"]):
+            inter.add(("sweep", tuple(r["pair"]), k))
     by_strategy = {}
     kinds = {}
     for _t, res in done:
@@ -479,6 +564,11 @@ def run(ctx):
         "shared_state_line_events": shared, "connections_still_open_after_scenarios_informational": open_after, "scenarios_by_strategy": by_strategy, "scenarios_by_call_kind": kinds,
         "tasks_skipped_by_budget": getattr(ctx, "last_skipped", 0),
         "fault_kinds_fired": {"thread_preemption": switches, "lock_contention": contended},
+        "atomicity_sweep": {"ordered_pairs_available": len(pairs), "pairs_swept": len(sweep_done), "insertion_points_run": sweep_points,
+                            "of_which_hot": sweep_hot, "pairs_with_every_hot_point_run": sweep_complete,
+                            "rule": "for an ordered pair (A, B) of calls contending for the same process state: B as a whole is inserted into A at a line event of A (one pre-emption per run); "
+                                    "'hot' = within %d line events after A touched process-global state" % sched.HOT_SPAN,
+                            "table": sweep_table[:30]},
     }
     return {"level": "exploration", "coverage": coverage, "violations": violations,
             "assumptions": [
